@@ -77,6 +77,9 @@ def run(R):
         g_started = CallGuard([SC + "start"], ("Ok",), "service_control.start is Ok")
         R.gate("C19.start", start, onst, [[g_pid], [g_started]], descr="start: on_start only after the OS started the service and a PID was found")
         _pid_arg(R, "C19.start.pid", start, [SC + "get_process_pid"])
+        # start() reports success only if a live process was found — on the "already running" shortcut as well as after a launch
+        R.gate("C19.start.ok", start, RetSink("Ok"), [[g_pid]],
+               descr="start returns Ok only behind get_process_pid == Ok(pid): a service left recorded as Running has a live process")
     ref = R.body("C19.refresh", NM + "refresh_node_registry::{closure#0}")
     if ref is not None:
         prep(ref)
